@@ -15,7 +15,8 @@ ASSUMPTIONS = ["'to rounding / to solver tolerance' is floating point: executed,
 
 def payloads(tier, seed):
     n = 60 if tier == "quick" else 1200
-    return [{"seed": seed, "index": i, "mode": ["any", "closed", "replacement"][i % 3]} for i in range(n)]
+    return [{"seed": seed, "index": i, "mode": ["any", "closed", "replacement"][i % 3]} for i in range(n)] \
+        + [{"seed": seed, "index": i, "mode": "scenario"} for i in range(n // 6)]
 
 def known_payloads():
     return [{"seed": 0, "index": 0, "mode": "known_F1"}]
@@ -46,6 +47,64 @@ def totals_check(out, S, prog, payload, label, sig=None):
             return False
     return True
 
+def scenario_task(W, payload, r):
+    """a baseline model that has been run, and a scenario model of the same shape (same compartments, same number of flows) in which one
+    transition is replaced by a death flow out of the same compartment; the scenario is attached to the baseline with `set_baseline` (its
+    documented use) before anything is evaluated: the rate of change of the scenario's total must be ITS entry minus exit flows"""
+    import interp as interp_mod
+    prog = Gen(r, Opts(max_strats=2, allow_requests=False, allow_computed=False, max_flows=5, allow_post_flows=False,
+                       kinds=["transition", "transition", "death", "infection", "import"])).program()
+    out = mk_out(prog)
+    bump(out, "mode:scenario")
+    opsA = prog["build"]
+    ti = [i for i, op in enumerate(opsA) if op["op"] == "flow" and op["kind"] == "transition"]
+    if not ti:
+        bump(out, "scenario:no_transition"); return out
+    i = r.choice(ti)
+    opsB = copy.deepcopy(opsA)
+    t_ = opsB[i]
+    opsB[i] = {"op": "flow", "kind": "death", "name": t_["name"], "param": t_["param"], "src": t_["src"]}
+    if t_.get("src_strata"): opsB[i]["src_strata"] = t_["src_strata"]
+    # adjustments declared for the replaced flow keep applying to the death flow (same name)
+    IA = interp_mod.Interp()
+    for op in opsA:
+        if not IA.apply(op)["ok"]:
+            bump(out, "build_rejected"); return out
+    if not IA.apply({"op": "run", "params": [[k, v] for k, v in prog["params"].items()], "solver": "euler"})["ok"]:
+        bump(out, "baseline_run_failed"); return out
+    S = fresh_session(W)
+    if not S.build(opsB):
+        bump(out, "build_rejected"); return out
+    m = S.I.model
+    if len(m.flows) != len(IA.model.flows) or len(m.compartments) != len(IA.model.compartments):
+        bump(out, "scenario:shape_differs"); return out
+    try:
+        m.set_baseline(IA.model)
+    except BaseException as e:
+        bump(out, "scenario:set_baseline_raised"); return out
+    progB = dict(prog, build=opsB)
+    h = prog_hash(opsB)
+    entry = [i_ for i_, f in enumerate(m.flows) if f.source is None]
+    exit_ = [i_ for i_, f in enumerate(m.flows) if f.dest is None]
+    for smode, t, x in sample_states(r, progB, ("interior", "boundary")):
+        before = len(S.log)
+        py, ln = S.one_step(prog["params"], t, x, stages=("S5",))
+        out["evals"] += 1
+        tag_diffs(out, S, before, "c02", payload, progB, ("S5",))
+        if not py.get("ok"):
+            continue
+        fr = np.array(py["flow_rates"]); cr = np.array(py["comp_rates"])
+        if not np.all(np.isfinite(fr)):
+            continue
+        want = fr[entry].sum() - fr[exit_].sum()
+        scale = max(1.0, float(np.abs(fr).sum()))
+        if abs(cr.sum() - want) > 1e-9 * scale:
+            fail(out, "scenario attached to a baseline: rate of change of the total population differs from the scenario's entry minus exit flow rates", "c02", payload,
+                 total_rate=float(cr.sum()), entry_minus_exit=float(want), t=t, x=x, baseline=opsA, scenario=opsB, params=prog["params"])
+        out["cases"].append(h + ":scenario:" + smode)
+    return out
+
+
 def task(W, payload):
     mode = payload["mode"]
     r = random.Random(f"C02:{payload['seed']}:{payload['index']}")
@@ -57,11 +116,15 @@ def task(W, payload):
                          sig={"oracle": "replacement_total", "site": "model.py:add_replacement_birth_flow",
                               "pattern": "replacement-birth flow added to a model in which its destination already matches k >= 2 compartments"})
         return out
+    if mode == "scenario":
+        return scenario_task(W, payload, r)
     if mode == "closed":
         opts = Opts(closed=True, max_strats=2, allow_requests=False, allow_computed=False, max_flows=6)
     elif mode == "replacement":
         opts = Opts(kinds=["transition", "death", "universal_death", "infection"], max_strats=2, allow_requests=False, allow_computed=False,
                     max_flows=5, allow_post_flows=False, zero_adjust_bias=0.25)
+        if payload["index"] % 2 == 0:
+            opts.max_strats = 3; opts.force_strat = True; opts.allow_partial = False; opts.allow_age = False    # several full stratifications: the births are split again and again
     else:
         opts = Opts(max_strats=2, allow_requests=False, allow_computed=False)
     g = Gen(r, opts)
@@ -71,6 +134,18 @@ def task(W, payload):
         idx = next(i for i, op in enumerate(prog["build"]) if op["op"] == "init_pop") + 1
         dst = r.choice(prog["build"][0]["comps"])
         prog["build"].insert(idx, {"op": "flow", "kind": "repl_birth", "name": "repl", "dst": dst})
+        # ... except by Overwrite adjustments of a LATER stratification that redistribute the births over the strata without changing their total:
+        # with k copies so far (each carrying the automatic 1/n shares of the earlier stratifications), overwriting with shares that sum to 1/k
+        k = 1
+        for op in prog["build"]:
+            if op["op"] != "stratify" or dst not in op["comps"] or op["kind"] == "age":
+                continue
+            n_ = len(op["strata"])
+            if k >= 2 and r.random() < 0.7:
+                shares = r.choice({1: [[Fr(1)]], 2: [[Fr(1, 2), Fr(1, 2)], [Fr(1, 4), Fr(3, 4)]], 3: [[Fr(1, 2), Fr(1, 4), Fr(1, 4)], [Fr(1, 8), Fr(5, 8), Fr(1, 4)]]}[n_])
+                op.setdefault("flow_adj", []).append({"flow": "repl", "adjs": [[s_, ["ovr", {"c": q(w / k)}]] for s_, w in zip(op["strata"], shares)]})
+                prog["meta"]["feat"]["repl:overwritten_by_later_stratification"] = prog["meta"]["feat"].get("repl:overwritten_by_later_stratification", 0) + 1
+            k *= n_
     S = fresh_session(W)
     out = mk_out(prog)
     bump(out, "mode:" + mode)
